@@ -276,17 +276,24 @@ def part_b(ctx, res):
         chain.patch(horizon=-1)
         keys = chain.Keys(rng, 4)
         tree = chain.Tree(rng, keys, genesis=None)
-        common = rng.randrange(1, 6)
+        beyond = (ri % 3 == 1)
+        if beyond:
+            # the fork point lies between two sparse locator heights of the shorter branch, more than a batch above the
+            # lower one: the first reply consists of blocks the requester already has
+            batch = 5
+            rp.GET_BLOCKS_INVENTORY_SIZE = batch
+        common = rng.randrange(6, 14) if beyond else rng.randrange(1, 6)
         for _ in range(common):
             tree.extend(n_tx=rng.choice([0, 0, 1]))
         fork_point = tree.cs.current_chain_hash
         tips = []
-        depth_kind = rng.choice(["shallow", "deep", "multi_batch"])
+        depth_kind = "beyond_dense" if beyond else rng.choice(["shallow", "deep", "multi_batch"])
         for k in range(n_nodes):
             h = fork_point
             length = {"shallow": rng.randrange(0, 6), "deep": rng.randrange(11, 20),
+                      "beyond_dense": rng.choice([10, 11, 17, 18, 19, 20]) + (3 * k if k else 0),
                       "multi_batch": rng.randrange(6, 14) if batch == 5 else rng.randrange(0, 6)}[depth_kind]
-            if k == 0 and rng.random() < 0.3:
+            if k == 0 and rng.random() < 0.3 and not beyond:
                 length = 0
             for _ in range(length):
                 h = tree.extend(h, n_tx=rng.choice([0, 0, 1])).hash()
